@@ -680,6 +680,232 @@ fn gen_named_class(r: &mut Rng, depth: usize) -> String {
     s
 }
 
+
+// ------------------------------------------------------------------------------------------------ named leaves (C08)
+/// every Unicode scalar value, in ascending order
+fn all_scalars() -> String {
+    let mut s = String::with_capacity(4_500_000);
+    for u in 0u32..=0x10FFFF { if let Some(c) = char::from_u32(u) { s.push(c); } }
+    s
+}
+/// the set of chars the one-item pattern `p` matches, read off a scan of `input` (one token per matching char: the pattern matches single chars only)
+fn members(p: &str, input: &str) -> Result<std::collections::HashSet<char>, String> {
+    let modes = vec![ModeSpec { name: "M0".into(), pats: vec![PatSpec { p: p.into(), tt: 0, la: None }], trans: vec![] }];
+    let sc = build(&modes).map_err(|e| format!("build of {p} failed: {e}"))?;
+    let mut out = std::collections::HashSet::new();
+    for m in sc.find_iter(input) {
+        let t = &input[m.start()..m.end()];
+        let mut it = t.chars();
+        let c = it.next().unwrap();
+        if it.next().is_some() { return Err(format!("{p}: token {:?} longer than one char", t)); }
+        out.insert(c);
+    }
+    Ok(out)
+}
+/// ASCII sets the property statement spells out (C08: \d \s \w restricted to ASCII are [0-9], [\t\n\x0B\x0C\r ], [0-9A-Za-z_]; \D \S \W their complements),
+/// and the POSIX spellings of the same three sets
+const ASCII_LEAVES: &[(&str, &str, bool)] = &[
+    ("\\d", "0123456789", false), ("\\D", "0123456789", true),
+    ("\\s", "\t\n\u{b}\u{c}\r ", false), ("\\S", "\t\n\u{b}\u{c}\r ", true),
+    ("\\w", "0123456789ABCDEFGHIJKLMNOPQRSTUVWXYZabcdefghijklmnopqrstuvwxyz_", false), ("\\W", "0123456789ABCDEFGHIJKLMNOPQRSTUVWXYZabcdefghijklmnopqrstuvwxyz_", true),
+    ("[[:word:]]", "0123456789ABCDEFGHIJKLMNOPQRSTUVWXYZabcdefghijklmnopqrstuvwxyz_", false), ("[[:^word:]]", "0123456789ABCDEFGHIJKLMNOPQRSTUVWXYZabcdefghijklmnopqrstuvwxyz_", true),
+    ("[^[:word:]]", "0123456789ABCDEFGHIJKLMNOPQRSTUVWXYZabcdefghijklmnopqrstuvwxyz_", true), ("[^[:^word:]]", "0123456789ABCDEFGHIJKLMNOPQRSTUVWXYZabcdefghijklmnopqrstuvwxyz_", false),
+    ("[[:space:]]", "\t\n\u{b}\u{c}\r ", false), ("[[:^space:]]", "\t\n\u{b}\u{c}\r ", true), ("[^[:space:]]", "\t\n\u{b}\u{c}\r ", true),
+    ("[[:digit:]]", "0123456789", false), ("[[:^digit:]]", "0123456789", true), ("[^[:digit:]]", "0123456789", true),
+    ("[\\d]", "0123456789", false), ("[^\\d]", "0123456789", true), ("[\\s]", "\t\n\u{b}\u{c}\r ", false), ("[^\\s]", "\t\n\u{b}\u{c}\r ", true),
+    ("[\\w]", "0123456789ABCDEFGHIJKLMNOPQRSTUVWXYZabcdefghijklmnopqrstuvwxyz_", false), ("[^\\w]", "0123456789ABCDEFGHIJKLMNOPQRSTUVWXYZabcdefghijklmnopqrstuvwxyz_", true),
+];
+/// named Unicode items for which the regex crate (its own Unicode tables) and the unchanged crate (seshat's tables) denote the SAME set over all 1 112 064 scalar values
+/// (established by `leafsweep` on the unchanged tree; both table sets are pinned by Cargo.lock). (scnr spelling, regex-crate spelling)
+const AGREEING_UNICODE: &[(&str, &str)] = &[
+("\\p{Alphabetic}", "\\p{Alphabetic}"),
+    ("\\P{Alphabetic}", "\\P{Alphabetic}"),
+    ("\\p{ASCII_Hex_Digit}", "\\p{ASCII_Hex_Digit}"),
+    ("\\P{ASCII_Hex_Digit}", "\\P{ASCII_Hex_Digit}"),
+    ("\\p{Bidi_Control}", "\\p{Bidi_Control}"),
+    ("\\P{Bidi_Control}", "\\P{Bidi_Control}"),
+    ("\\p{Case_Ignorable}", "\\p{Case_Ignorable}"),
+    ("\\P{Case_Ignorable}", "\\P{Case_Ignorable}"),
+    ("\\p{Cased}", "\\p{Cased}"),
+    ("\\P{Cased}", "\\P{Cased}"),
+    ("\\p{Dash}", "\\p{Dash}"),
+    ("\\P{Dash}", "\\P{Dash}"),
+    ("\\p{Default_Ignorable_Code_Point}", "\\p{Default_Ignorable_Code_Point}"),
+    ("\\P{Default_Ignorable_Code_Point}", "\\P{Default_Ignorable_Code_Point}"),
+    ("\\p{Deprecated}", "\\p{Deprecated}"),
+    ("\\P{Deprecated}", "\\P{Deprecated}"),
+    ("\\p{Diacritic}", "\\p{Diacritic}"),
+    ("\\P{Diacritic}", "\\P{Diacritic}"),
+    ("\\p{Emoji_Component}", "\\p{Emoji_Component}"),
+    ("\\P{Emoji_Component}", "\\P{Emoji_Component}"),
+    ("\\p{Emoji_Modifier_Base}", "\\p{Emoji_Modifier_Base}"),
+    ("\\P{Emoji_Modifier_Base}", "\\P{Emoji_Modifier_Base}"),
+    ("\\p{Emoji_Modifier}", "\\p{Emoji_Modifier}"),
+    ("\\P{Emoji_Modifier}", "\\P{Emoji_Modifier}"),
+    ("\\p{Emoji_Presentation}", "\\p{Emoji_Presentation}"),
+    ("\\P{Emoji_Presentation}", "\\P{Emoji_Presentation}"),
+    ("\\p{Emoji}", "\\p{Emoji}"),
+    ("\\P{Emoji}", "\\P{Emoji}"),
+    ("\\p{Extended_Pictographic}", "\\p{Extended_Pictographic}"),
+    ("\\P{Extended_Pictographic}", "\\P{Extended_Pictographic}"),
+    ("\\p{Extender}", "\\p{Extender}"),
+    ("\\P{Extender}", "\\P{Extender}"),
+    ("\\p{Grapheme_Extend}", "\\p{Grapheme_Extend}"),
+    ("\\P{Grapheme_Extend}", "\\P{Grapheme_Extend}"),
+    ("\\p{Hex_Digit}", "\\p{Hex_Digit}"),
+    ("\\P{Hex_Digit}", "\\P{Hex_Digit}"),
+    ("\\p{Hyphen}", "\\p{Hyphen}"),
+    ("\\P{Hyphen}", "\\P{Hyphen}"),
+    ("\\p{ID_Continue}", "\\p{ID_Continue}"),
+    ("\\P{ID_Continue}", "\\P{ID_Continue}"),
+    ("\\p{ID_Start}", "\\p{ID_Start}"),
+    ("\\P{ID_Start}", "\\P{ID_Start}"),
+    ("\\p{Ideographic}", "\\p{Ideographic}"),
+    ("\\P{Ideographic}", "\\P{Ideographic}"),
+    ("\\p{IDS_Binary_Operator}", "\\p{IDS_Binary_Operator}"),
+    ("\\P{IDS_Binary_Operator}", "\\P{IDS_Binary_Operator}"),
+    ("\\p{IDS_Trinary_Operator}", "\\p{IDS_Trinary_Operator}"),
+    ("\\P{IDS_Trinary_Operator}", "\\P{IDS_Trinary_Operator}"),
+    ("\\p{Join_Control}", "\\p{Join_Control}"),
+    ("\\P{Join_Control}", "\\P{Join_Control}"),
+    ("\\p{Logical_Order_Exception}", "\\p{Logical_Order_Exception}"),
+    ("\\P{Logical_Order_Exception}", "\\P{Logical_Order_Exception}"),
+    ("\\p{Lowercase}", "\\p{Lowercase}"),
+    ("\\P{Lowercase}", "\\P{Lowercase}"),
+    ("\\p{Math}", "\\p{Math}"),
+    ("\\P{Math}", "\\P{Math}"),
+    ("\\p{Noncharacter_Code_Point}", "\\p{Noncharacter_Code_Point}"),
+    ("\\P{Noncharacter_Code_Point}", "\\P{Noncharacter_Code_Point}"),
+    ("\\p{Other_Alphabetic}", "\\p{Other_Alphabetic}"),
+    ("\\P{Other_Alphabetic}", "\\P{Other_Alphabetic}"),
+    ("\\p{Other_Default_Ignorable_Code_Point}", "\\p{Other_Default_Ignorable_Code_Point}"),
+    ("\\P{Other_Default_Ignorable_Code_Point}", "\\P{Other_Default_Ignorable_Code_Point}"),
+    ("\\p{Other_Grapheme_Extend}", "\\p{Other_Grapheme_Extend}"),
+    ("\\P{Other_Grapheme_Extend}", "\\P{Other_Grapheme_Extend}"),
+    ("\\p{Other_ID_Continue}", "\\p{Other_ID_Continue}"),
+    ("\\P{Other_ID_Continue}", "\\P{Other_ID_Continue}"),
+    ("\\p{Other_ID_Start}", "\\p{Other_ID_Start}"),
+    ("\\P{Other_ID_Start}", "\\P{Other_ID_Start}"),
+    ("\\p{Other_Lowercase}", "\\p{Other_Lowercase}"),
+    ("\\P{Other_Lowercase}", "\\P{Other_Lowercase}"),
+    ("\\p{Other_Math}", "\\p{Other_Math}"),
+    ("\\P{Other_Math}", "\\P{Other_Math}"),
+    ("\\p{Other_Uppercase}", "\\p{Other_Uppercase}"),
+    ("\\P{Other_Uppercase}", "\\P{Other_Uppercase}"),
+    ("\\p{Pattern_Syntax}", "\\p{Pattern_Syntax}"),
+    ("\\P{Pattern_Syntax}", "\\P{Pattern_Syntax}"),
+    ("\\p{Pattern_White_Space}", "\\p{Pattern_White_Space}"),
+    ("\\P{Pattern_White_Space}", "\\P{Pattern_White_Space}"),
+    ("\\p{Prepended_Concatenation_Mark}", "\\p{Prepended_Concatenation_Mark}"),
+    ("\\P{Prepended_Concatenation_Mark}", "\\P{Prepended_Concatenation_Mark}"),
+    ("\\p{Quotation_Mark}", "\\p{Quotation_Mark}"),
+    ("\\P{Quotation_Mark}", "\\P{Quotation_Mark}"),
+    ("\\p{Radical}", "\\p{Radical}"),
+    ("\\P{Radical}", "\\P{Radical}"),
+    ("\\p{Regional_Indicator}", "\\p{Regional_Indicator}"),
+    ("\\P{Regional_Indicator}", "\\P{Regional_Indicator}"),
+    ("\\p{Sentence_Terminal}", "\\p{Sentence_Terminal}"),
+    ("\\P{Sentence_Terminal}", "\\P{Sentence_Terminal}"),
+    ("\\p{Soft_Dotted}", "\\p{Soft_Dotted}"),
+    ("\\P{Soft_Dotted}", "\\P{Soft_Dotted}"),
+    ("\\p{Terminal_Punctuation}", "\\p{Terminal_Punctuation}"),
+    ("\\P{Terminal_Punctuation}", "\\P{Terminal_Punctuation}"),
+    ("\\p{Unified_Ideograph}", "\\p{Unified_Ideograph}"),
+    ("\\P{Unified_Ideograph}", "\\P{Unified_Ideograph}"),
+    ("\\p{Uppercase}", "\\p{Uppercase}"),
+    ("\\P{Uppercase}", "\\P{Uppercase}"),
+    ("\\p{Variation_Selector}", "\\p{Variation_Selector}"),
+    ("\\P{Variation_Selector}", "\\P{Variation_Selector}"),
+    ("\\p{White_Space}", "\\p{White_Space}"),
+    ("\\P{White_Space}", "\\P{White_Space}"),
+    ("\\p{XID_Continue}", "\\p{XID_Continue}"),
+    ("\\P{XID_Continue}", "\\P{XID_Continue}"),
+    ("\\p{XID_Start}", "\\p{XID_Start}"),
+    ("\\P{XID_Start}", "\\P{XID_Start}"),
+    ("\\s", "\\s"),
+    ("\\S", "\\S"),
+    ("\\pL", "\\p{Alphabetic}"),
+    ("\\PL", "\\P{Alphabetic}"),
+    ("\\pZ", "\\p{White_Space}"),
+    ("\\pP", "\\p{Terminal_Punctuation}"),
+    ("[[:xdigit:]]", "[0-9A-Fa-f]"),
+    ("[[:punct:]]", "[!-/:-@\\[-`{-~]"),
+    ("[[:cntrl:]]", "[\\x00-\\x1f\\x7f]"),
+    ("[[:graph:]]", "[!-~]"),
+    ("[[:ascii:]]", "[\\x00-\\x7f]"),
+];
+fn run_named_leaf_case(c: &Case) -> Result<(), String> {
+    let r = catch_unwind(AssertUnwindSafe(|| {
+        let p = &c.modes[0].pats[0].p;
+        if let Some((_, set, neg)) = ASCII_LEAVES.iter().find(|(q, _, _)| q == p) {
+            let ascii: String = (0u8..128).map(|b| b as char).collect();
+            let got = members(p, &ascii)?;
+            for ch in ascii.chars() {
+                let exp = set.contains(ch) != *neg;
+                if got.contains(&ch) != exp {
+                    return Err(format!("named item {} on {:?} (ASCII, all 128 code points enumerated): scnr matches = {}, the set the property states = {}", p, ch, got.contains(&ch), exp));
+                }
+            }
+            return Ok(());
+        }
+        let (_, q) = AGREEING_UNICODE.iter().find(|(s, _)| s == p).ok_or_else(|| format!("unknown named leaf {p}"))?;
+        let all = all_scalars();
+        let got = members(p, &all)?;
+        let re = Regex::new(&format!("^(?:{})$", q)).unwrap();
+        let mut buf = [0u8; 4];
+        for ch in all.chars() {
+            let exp = re.is_match(ch.encode_utf8(&mut buf));
+            if got.contains(&ch) != exp {
+                return Err(format!("named item {} on {:?} (U+{:04X}; all scalar values enumerated): scnr matches = {}, reference (regex crate, agreed with the unchanged tree on every scalar value) = {}", p, ch, ch as u32, got.contains(&ch), exp));
+            }
+        }
+        Ok(())
+    }));
+    match r { Ok(x) => x, Err(_) => Err("PANIC".into()) }
+}
+/// development aid: which named items does the regex crate agree on with the crate under test, over all scalar values?
+fn leafsweep() {
+    const NAMES: &[&str] = &["Alphabetic", "ASCII_Hex_Digit", "Bidi_Control", "Case_Ignorable", "Cased", "Dash", "Default_Ignorable_Code_Point", "Deprecated", "Diacritic",
+        "Emoji_Component", "Emoji_Modifier_Base", "Emoji_Modifier", "Emoji_Presentation", "Emoji", "Extended_Pictographic", "Extender", "Grapheme_Extend", "Hex_Digit", "Hyphen",
+        "ID_Continue", "ID_Start", "Ideographic", "IDS_Binary_Operator", "IDS_Trinary_Operator", "Join_Control", "Logical_Order_Exception", "Lowercase", "Math",
+        "Noncharacter_Code_Point", "Other_Alphabetic", "Other_Default_Ignorable_Code_Point", "Other_Grapheme_Extend", "Other_ID_Continue", "Other_ID_Start", "Other_Lowercase",
+        "Other_Math", "Other_Uppercase", "Pattern_Syntax", "Pattern_White_Space", "Prepended_Concatenation_Mark", "Quotation_Mark", "Radical", "Regional_Indicator",
+        "Sentence_Terminal", "Soft_Dotted", "Terminal_Punctuation", "Unified_Ideograph", "Uppercase", "Variation_Selector", "White_Space", "XID_Continue", "XID_Start"];
+    let all = all_scalars();
+    let mut cands: Vec<(String, String)> = vec![];
+    for n in NAMES { cands.push((format!("\\p{{{n}}}"), format!("\\p{{{n}}}"))); cands.push((format!("\\P{{{n}}}"), format!("\\P{{{n}}}"))); }
+    cands.push(("\\s".into(), "\\s".into()));
+    cands.push(("\\S".into(), "\\S".into()));
+    cands.push(("\\pL".into(), "\\p{Alphabetic}".into()));
+    cands.push(("\\PL".into(), "\\P{Alphabetic}".into()));
+    cands.push(("\\pZ".into(), "\\p{White_Space}".into()));
+    cands.push(("\\pP".into(), "\\p{Terminal_Punctuation}".into()));
+    cands.push(("\\pN".into(), "\\pN".into()));
+    cands.push(("\\d".into(), "\\pN".into()));
+    cands.push(("\\D".into(), "\\PN".into()));
+    cands.push(("\\w".into(), "[\\p{Alphabetic}\\pN\\p{Join_Control}\\p{Pc}\\p{Mn}]".into()));
+    cands.push(("\\W".into(), "[^\\p{Alphabetic}\\pN\\p{Join_Control}\\p{Pc}\\p{Mn}]".into()));
+    cands.push(("[[:alpha:]]".into(), "\\p{Alphabetic}".into()));
+    cands.push(("[[:lower:]]".into(), "\\p{Lowercase}".into()));
+    cands.push(("[[:upper:]]".into(), "\\p{Uppercase}".into()));
+    cands.push(("[[:alnum:]]".into(), "[\\p{Alphabetic}\\pN]".into()));
+    cands.push(("[[:xdigit:]]".into(), "[0-9A-Fa-f]".into()));
+    cands.push(("[[:punct:]]".into(), "[!-/:-@\\[-`{-~]".into()));
+    cands.push(("[[:cntrl:]]".into(), "[\\x00-\\x1f\\x7f]".into()));
+    cands.push(("[[:graph:]]".into(), "[!-~]".into()));
+    cands.push(("[[:ascii:]]".into(), "[\\x00-\\x7f]".into()));
+    let mut buf = [0u8; 4];
+    for (p, q) in cands {
+        let re = match Regex::new(&format!("^(?:{})$", q)) { Ok(r) => r, Err(_) => { eprintln!("-- {p}: regex crate rejects {q}"); continue; } };
+        let got = match members(&p, &all) { Ok(g) => g, Err(e) => { eprintln!("-- {p}: {e}"); continue; } };
+        let mut diff = 0usize; let mut first = None;
+        for ch in all.chars() {
+            if got.contains(&ch) != re.is_match(ch.encode_utf8(&mut buf)) { diff += 1; if first.is_none() { first = Some(ch as u32); } }
+        }
+        if diff == 0 { println!("    ({:?}, {:?}),", p, q); } else { eprintln!("-- {p} vs {q}: {diff} differences, first U+{:04X}", first.unwrap()); }
+    }
+}
+
 /// unsupported features (C15): input holds "ok" or "err": whether the single pattern must build
 fn run_unsupported_case(c: &Case) -> Result<(), String> {
     let r = catch_unwind(AssertUnwindSafe(|| {
@@ -731,6 +957,9 @@ fn run_any(c: &Case) -> Result<(), String> {
     }
     if c.family == "named_classes" {
         return run_named_class_case(c);
+    }
+    if c.family == "named_leaves" {
+        return run_named_leaf_case(c);
     }
     if c.family == "cache" {
         return run_cache_case(c);
@@ -1070,6 +1299,16 @@ fn gen_case(family: &str, r: &mut Rng) -> Case {
             Case { family: family.into(), modes: vec![ModeSpec { name: "M0".into(), pats: vec![PatSpec { p, tt: 0, la: None }], trans: vec![] }],
                    input: "abcdexz0359é\n\r-^.A \t_\u{0}\u{1f}\u{7e}\u{7f}\u{80}\u{7ff}\u{800}\u{d7ff}\u{e000}\u{ffff}\u{10000}\u{10ffff}".into(), start_offset: 0, ops: vec![], with_positions: false }
         }
+        "named_leaves" => {
+            // deterministic enumeration: the ASCII leaves first (cheap, all 128 code points each), then the Unicode leaves (all scalar values each)
+            let k = { NAMED_LEAF_NEXT.fetch_add(1, std::sync::atomic::Ordering::SeqCst) };
+            let n_a = ASCII_LEAVES.len();
+            let n_u = AGREEING_UNICODE.len();
+            let k = k % (n_a + n_u);
+            let p = if k < n_a { ASCII_LEAVES[k].0.to_string() } else { AGREEING_UNICODE[k - n_a].0.to_string() };
+            Case { family: family.into(), modes: vec![ModeSpec { name: "M0".into(), pats: vec![PatSpec { p, tt: 0, la: None }], trans: vec![] }],
+                   input: "*".into(), start_offset: 0, ops: vec![], with_positions: false }
+        }
         "named_classes" => {
             let p = gen_named_class(r, 2);
             Case { family: family.into(), modes: vec![ModeSpec { name: "M0".into(), pats: vec![PatSpec { p, tt: 0, la: None }], trans: vec![] }],
@@ -1128,9 +1367,11 @@ fn usable(c: &Case) -> bool {
     true
 }
 
+static NAMED_LEAF_NEXT: std::sync::atomic::AtomicUsize = std::sync::atomic::AtomicUsize::new(0);
 fn main() {
     std::panic::set_hook(Box::new(|_| {}));
     let args: Vec<String> = std::env::args().collect();
+    if args.len() >= 2 && args[1] == "leafsweep" { leafsweep(); return; }
     if args.len() >= 3 && args[1] == "replay" {
         let c: Case = serde_json::from_str(&args[2]).expect("case json");
         match run_any(&c) {
@@ -1148,6 +1389,29 @@ fn main() {
     let seed: u64 = args.get(2).and_then(|s| s.parse().ok()).unwrap_or(1);
     let budget = Duration::from_millis(args.get(3).and_then(|s| s.parse().ok()).unwrap_or(5000));
     let mut r = Rng(seed.wrapping_mul(0x9E3779B97F4A7C15) | 1);
+    if family == "named_leaves" {
+        // not sampled: EVERY listed named item is checked on every run (ASCII leaves over all 128 code points, Unicode leaves over all scalar values), 8 threads
+        let total = ASCII_LEAVES.len() + AGREEING_UNICODE.len();
+        let cases: Vec<Case> = (0..total).map(|_| gen_case(family, &mut r)).collect();
+        let found = std::sync::Mutex::new(None);
+        std::thread::scope(|sc| {
+            for t in 0..8 {
+                let cases = &cases; let found = &found;
+                sc.spawn(move || {
+                    for (i, c) in cases.iter().enumerate() {
+                        if i % 8 != t { continue; }
+                        if found.lock().unwrap().is_some() { return; }
+                        if let Err(e) = run_any(c) { let mut f = found.lock().unwrap(); if f.is_none() { *f = Some((c.clone(), e)); } return; }
+                    }
+                });
+            }
+        });
+        match found.into_inner().unwrap() {
+            Some((c, e)) => println!("{}", serde_json::json!({"found": true, "tried": total, "distinct": total, "case": c, "disagreement": e})),
+            None => println!("{}", serde_json::json!({"found": false, "tried": total, "distinct": total, "sample": cases[0]})),
+        }
+        return;
+    }
     let t0 = Instant::now();
     let mut tried = 0usize;
     let mut distinct = std::collections::HashSet::new();
